@@ -9,7 +9,9 @@ Monitors (DESIGN.md section 5 / C09):
  (3) both kernels: number of returned states, determinism in the seed (two runs, global numpy generator
      re-seeded differently in between), every returned state re-evaluated finite.
  (4) moments on Gaussian targets in whitened coordinates (means, variances, cross products), z-score from the
-     effective sample size of each statistic's own series, threshold 6, confirmed on a second seed.
+     effective sample size of each statistic's own series, threshold 6, confirmed on a second seed; in addition
+     'pooled' NUTS cases (12 chains each) judge the per-type sum of z / sqrt(count) the same way, which resolves
+     biases of a few per cent that no single chain can show.
 """
 import math
 
@@ -44,12 +46,13 @@ CONFIG = {
 REQUIRED = ['met_chains', 'met_steps_walked', 'met_accepts', 'met_rejects', 'met_rejects_nonfinite',
             'met_replay_compared', 'met_trace_ok', 'nuts_chains', 'states_reevaluated_metropolis',
             'states_reevaluated_nuts', 'determinism_pairs_metropolis', 'determinism_pairs_nuts',
-            'moment_stats_metropolis', 'moment_stats_nuts', 'target_evals_nan', 'target_evals_neginf',
+            'moment_stats_metropolis', 'moment_stats_nuts', 'moment_pooled_cases', 'target_evals_nan', 'target_evals_neginf',
             'nuts_stepsize_searched', 'nuts_stepsize_given', 'nuts_iter_eq_adapt_plus_1']
 
 KINDS = ['met', 'met', 'met', 'nuts', 'met', 'metmom', 'met', 'nuts', 'met', 'nutsmom', 'nuts', 'met']
 FAMILIES = ['gauss', 'mix', 'box', 'half', 'flatbox', 'nanball', 'nanhalf']
 Z_MAX = 6.0
+POOL_CHAINS, POOL_ITER = 12, 5000
 
 
 # ---------------------------------------------------------------------------------------------------------
@@ -500,10 +503,24 @@ def gen_nuts(rng, moments):
                    'seed': _seed(rng), 'x0': [float(v) for v in x0]}}
 
 
+def gen_nutspool(rng):
+    """One case = POOL_CHAINS NUTS chains on different Gaussians; the whitened statistics are pooled per type."""
+    chains = []
+    for _ in range(POOL_CHAINS):
+        c = gen_nuts(rng, True)
+        c['kw'].update(n=POOL_ITER, n_adapt=500, stepsize=None, max_depth=int(rng.choice([2, 3, 5, 7])),
+                       target_prob=float(rng.choice([0.6, 0.8, 0.9])))
+        chains.append({'target': c['target'], 'kw': c['kw']})
+    return {'kind': 'nutspool', 'chains': chains}
+
+
 def gen_cases(ctx):
     rng = ctx.rng
     for i in range(ctx.ncases):
         kind = KINDS[(i + ctx.shard) % len(KINDS)]
+        if i % 36 == 5:
+            yield gen_nutspool(rng)
+            continue
         if kind in ('met', 'metmom'):
             yield gen_met(rng, kind == 'metmom')
         else:
@@ -511,7 +528,54 @@ def gen_cases(ctx):
 
 
 # ---------------------------------------------------------------------------------------------------------
+def pooled_z(ctx, case, shift):
+    acc = {}
+    for ch in case['chains']:
+        tgt = Target(ch['target'])
+        kw = dict(ch['kw'], seed=(ch['kw']['seed'] + shift) % (2 ** 32))
+        chain, _, _ = call_kernel('nuts', tgt, kw)
+        x0 = np.array(kw['x0'], dtype=float)
+        if not isinstance(chain, np.ndarray) or chain.shape != (kw['n'],) + x0.shape:
+            raise Violation('nuts-length', 'nuts returned shape %s, requested %d states' % (getattr(chain, 'shape', None), kw['n']), {'kw': kw})
+        if shift == 0:
+            full = np.vstack([x0[None], chain])
+            moved = np.any(full[1:] != full[:-1], axis=1)
+            ctx.nontrivial(bool(moved.any()) and bool((~moved).any()))
+            ctx.event('nuts_chains')
+            ctx.event('nuts_stepsize_searched')
+        for name, (z, e) in moment_z(tgt, chain[kw['n_adapt']:]).items():
+            acc.setdefault(name[:3], []).append(z)
+    return {k: (float(np.sum(v)) / math.sqrt(len(v)), len(v)) for k, v in acc.items()}
+
+
+def run_pool(ctx, case):
+    """Small systematic biases (a few per cent of a variance) are invisible in one chain; pooled over the chains of the
+    case each statistic type (means / variances / cross products) is again ~N(0,1) under a correct kernel."""
+    first = pooled_z(ctx, case, 0)
+    ctx.event('moment_pooled_cases')
+    ctx.event('moment_pooled_stats', sum(n for _, n in first.values()))
+    for k, (z, n) in first.items():
+        ctx.event('moment_pooled_absz_ge3', abs(z) >= 3)
+        ctx.event('moment_pooled_absz_ge4', abs(z) >= 4)
+        ctx.event('moment_pooled_absz_ge5', abs(z) >= 5)
+    big = {k: v for k, v in first.items() if not abs(v[0]) <= Z_MAX}
+    if not big:
+        return
+    second = pooled_z(ctx, case, 1000003)
+    ctx.event('moment_second_seed_runs')
+    conf = {k: (v[0], second[k][0], v[1]) for k, v in big.items()
+            if not abs(second[k][0]) <= Z_MAX and (np.sign(second[k][0]) == np.sign(v[0]) or np.isnan(v[0]))}
+    if conf:
+        raise Violation('nuts-moments', 'nuts on %d Gaussian targets: pooled whitened %s statistics off by |z| > %g on two independent '
+                        'sets of seeds: %s' % (len(case['chains']), '/'.join(sorted(conf)), Z_MAX,
+                                               {k: (round(a, 1), round(b, 1)) for k, (a, b, _) in conf.items()}),
+                        {'pooled_z_first_second_count': conf})
+    ctx.event('moment_outlier_unconfirmed')
+
+
 def run_case(ctx, case):
+    if case['kind'] == 'nutspool':
+        return run_pool(ctx, case)
     tgt = Target(case['target'])
     kw = case['kw']
     kind = 'met' if case['kind'] in ('met', 'metmom') else 'nuts'
